@@ -42,10 +42,14 @@ func openFile(file *os.File, flag int, size int) (*File, error) {
 
 // Sync commits the current contents of the file to stable storage.
 func (f *File) Sync() error {
+	defer verifSynced(f)
 	return unix.Msync(f.Data, unix.MS_SYNC)
 }
 
 // Close closes the File, rendering it unusable for I/O.
 func (f File) Close() error {
+	if verifUnmap(&f) {
+		return nil
+	}
 	return unix.Munmap(f.Data)
 }
